@@ -64,7 +64,8 @@ ASSUMPTIONS = ["the peer's sender sequence numbers increase and it cannot know a
                "process-crash file semantics: os.replace is atomic and a completed os.replace survives the crash; "
                "power failure (fsync ordering) and I/O errors returned by _store are outside the quantifier",
                "one process per context directory (the lock file); contexts are never copied/rolled back",
-               "window size >= 1; sequence.json is only written by the implementation (no tampering)"]
+               "sequence.json is only written by the implementation (no tampering); (window size >= 1 is no longer an "
+               "assumption: since d4a2c42 the implementation refuses to load a smaller one)"]
 
 MAXSEQ = 2 ** 40 - 1
 SECRET = "0123456789abcdef"
